@@ -101,9 +101,26 @@ def binary_runs(ctx, rng, n_trees, runs_per_tree):
                 f.write(SOL[src])
         for r in range(runs_per_tree):
             rep_path = os.path.join(root, 'solstat_report.md')
-            if os.path.exists(rep_path):
+            # what an earlier run left in the working directory must not matter: nothing / a much longer report / the report
+            # of the previous run of this loop
+            if t % 3 == 0 and os.path.exists(rep_path):
                 os.remove(rep_path)
-            p = subprocess.run([binary, '--path', './contracts'], cwd=root, stdout=subprocess.PIPE, stderr=subprocess.PIPE, timeout=300)
+            elif t % 3 == 1 and r == 0:
+                with open(rep_path, 'w') as f:
+                    f.write('# report of an earlier, larger run\n\n### Lines\n' + ''.join('- Old%d.sol:%d\n' % (i % 9, i) for i in range(6000)))
+            # the configured patterns in another order select the same set of patterns
+            argv = [binary, '--path', './contracts']
+            if r % 2 == 1:
+                import names2coq
+                T = names2coq.tables()
+                lists = {c: [n for n, _ in T[c]['table']] for c in ('opt', 'vul', 'qa')}
+                for c in lists:
+                    rng.shuffle(lists[c])
+                with open(os.path.join(root, 'order.toml'), 'w') as f:
+                    f.write('path = "./contracts"\noptimizations = %s\nvulnerabilities = %s\nqa = %s\n'
+                            % (json.dumps(lists['opt']), json.dumps(lists['vul']), json.dumps(lists['qa'])))
+                argv = [binary, '--toml', 'order.toml']
+            p = subprocess.run(argv, cwd=root, stdout=subprocess.PIPE, stderr=subprocess.PIPE, timeout=300)
             if p.returncode != 0 or not os.path.exists(rep_path):
                 out.append(([rel for rel, _ in order], 'EXIT %d: %s' % (p.returncode, p.stderr.decode(errors='replace')[-300:])))
             else:
